@@ -98,6 +98,7 @@ func (b *Bind) Header(out any) error {
 func (b *Bind) RespHeader(out any) error {
 	bind := binder.GetFromThePool[*binder.RespHeaderBinding](&binder.RespHeaderBinderPool)
 	bind.EnableSplitting = b.ctx.App().config.EnableSplittingOnParsers
+	bind.Immutable = b.ctx.App().config.Immutable
 
 	// Reset & put binder
 	defer func() {
